@@ -488,6 +488,8 @@ func (db *MultiBucketBackend) PutObject(
 
 	if objectDir != "." {
 		if err := db.bucketFs.MkdirAll(objectDir, db.dirMode); err != nil {
+			// Part of the directory chain may have been created:
+			removeEmptyDirs(db.bucketFs, bucketName, filepath.ToSlash(objectDir))
 			return result, err
 		}
 	}
@@ -500,6 +502,7 @@ func (db *MultiBucketBackend) PutObject(
 
 	f, err := db.bucketFs.Create(objectFilePath)
 	if err != nil {
+		removeEmptyDirs(db.bucketFs, bucketName, filepath.ToSlash(objectDir))
 		return result, err
 	}
 
